@@ -345,3 +345,115 @@ pub fn int_boundaries() -> (Vec<i128>, Vec<u128>) {
     u.dedup();
     (s, u)
 }
+
+/// The 16 most hostile symbols of `ADV` (used for the length-4 space in the quick tier).
+pub const HOSTILE16: [char; 16] = ['a', '0', ' ', '\n', '\t', '\r', ':', '#', '-', '.', '\'', '"', '\\', '<', '\u{FEFF}', ','];
+/// The 12 most hostile symbols (used for the length-5 space in the thorough tier).
+pub const HOSTILE12: [char; 12] = ['a', '0', ' ', '\n', '\t', '\r', ':', '#', '-', '.', '\'', '"'];
+
+/// idx-th string of exactly `len` symbols.
+pub fn nth_of_len(alpha: &[char], len: usize, mut idx: usize) -> String {
+    let n = alpha.len();
+    let mut out = vec![' '; len];
+    for i in (0..len).rev() {
+        out[i] = alpha[idx % n];
+        idx /= n;
+    }
+    out.into_iter().collect()
+}
+
+/// C0 / C1 controls, DEL and the other code points the quantifier names (BOM, U+2028/9,
+/// non-characters, Unicode blanks) inside short and long templates.
+pub fn control_char_strings() -> Vec<String> {
+    let mut cps: Vec<u32> = (0u32..=0xA0).collect();
+    cps.extend([0xAD, 0x1680, 0x180E, 0x2000, 0x2007, 0x200A, 0x200B, 0x200E, 0x2028, 0x2029, 0x202F, 0x205F, 0x2060, 0x3000, 0xFEFF, 0xFFF9, 0xFFFD, 0xFFFE, 0xFFFF, 0x1FFFE, 0x10FFFF, 0xE000, 0xD7FF]);
+    let solid = "y".repeat(90);
+    let mut out = Vec::new();
+    for cp in cps {
+        let Some(c) = char::from_u32(cp) else { continue };
+        for t in [
+            format!("{c}"),
+            format!("a{c}"),
+            format!("{c}a"),
+            format!("a{c}b"),
+            format!("{c}{c}"),
+            format!("{c}\nb"),
+            format!("a\n{c}"),
+            format!("a\n{c}b\n"),
+            format!("  {c}"),
+            format!("{c} "),
+            format!("a {c} b"),
+            format!("{c}: a"),
+            format!("- {c}"),
+            format!("{c}{solid}"),
+            format!("{solid}{c}"),
+            format!("{solid}\n{c}"),
+            format!("{c}\n{solid}"),
+            format!("l1\na{c}b\n{solid}\n"),
+        ] {
+            out.push(t);
+        }
+    }
+    out
+}
+
+/// Strings whose length sits on the thresholds of the emitter: folded_wrap_chars (8, 80) and the
+/// 1024-character limit of implicit keys; with blanks, multi-byte characters and line breaks at
+/// and around the threshold column.
+pub fn threshold_strings() -> Vec<String> {
+    let mut out = Vec::new();
+    let lens: Vec<usize> = (5..=11).chain(76..=84).chain(1019..=1029).collect();
+    for &l in &lens {
+        let t = if l < 20 { 8usize } else if l < 200 { 80 } else { 1024 };
+        let take = |s: String| -> String { s.chars().take(l).collect() };
+        let solid = "a".repeat(l);
+        let words = take("xxxxxxxxx ".repeat(l / 10 + 2));
+        let words4 = take("xyz ".repeat(l / 4 + 2));
+        out.push(solid.clone());
+        out.push(words.trim_end().to_string());
+        out.push(words.clone());
+        out.push(words4.trim_end().to_string());
+        for ch in ['é', '語', '\u{1F600}', ' ', ':', '#', '\t', '\u{2028}', '\u{FEFF}', '-'] {
+            for at in [t.saturating_sub(2), t.saturating_sub(1), t, t + 1] {
+                if at >= l {
+                    continue;
+                }
+                for base in [&solid, &words, &words4] {
+                    let mut v: Vec<char> = base.chars().collect();
+                    v[at] = ch;
+                    let s: String = v.into_iter().collect();
+                    if !s.ends_with(' ') || ch == ' ' {
+                        out.push(s);
+                    }
+                }
+            }
+        }
+        // double blanks across the threshold, blank just before the end, line break inside
+        for at in [t.saturating_sub(1), t] {
+            if at + 1 < l {
+                let mut v: Vec<char> = solid.chars().collect();
+                v[at] = ' ';
+                v[at + 1] = ' ';
+                out.push(v.iter().collect());
+                let mut v: Vec<char> = words4.chars().collect();
+                v[at] = '\n';
+                out.push(v.iter().collect::<String>().trim_end().to_string());
+            }
+        }
+        let mut v: Vec<char> = solid.chars().collect();
+        v[l / 2] = '\n';
+        out.push(v.iter().collect());
+        v[0] = ' ';
+        out.push(v.iter().collect());
+        out.push(format!("{} ", &solid[..l - 1]));
+        out.push(format!(" {}", &solid[..l - 1]));
+        out.push(format!("{}:", &solid[..l - 1]));
+        out.push(format!("{}: b", &solid[..l.saturating_sub(3).max(1)]));
+        out.push(format!("'{}", &solid[..l - 1]));
+        out.push("é".repeat(l));
+        out.push("語".repeat(l));
+    }
+    out.sort();
+    out.dedup();
+    out
+}
